@@ -168,6 +168,11 @@ def generate(tier, rng):
             continue
         if fn in ('prod', 'cumprod') and size * n > 53:
             continue
+        if fn == 'cumprod':
+            # the quantifier bounds the result word by 53 bits: the cumprod format holds every partial product (size*n_frac fraction bits)
+            nf = size * f if f >= 0 else f
+            if max(n + nf - f, size * n + nf - size * f) > 53:
+                continue
         axis = rng.choice(['n', 'N', '0', '-1'] + (['1', '-2'] if two else []))
         if fn in ('transpose', 'diagonal', 'trace'):
             axis = rng.choice(['n', 'id', 'sw']) if fn == 'transpose' else 'n'
